@@ -5,6 +5,7 @@ prefix; beyond it, feasibility of both sides is asked from the solver, the `True
 the other side is queued.  Re-execution is deterministic (fresh names come from a per-path counter).
 """
 from __future__ import annotations
+import os
 import time
 import z3
 from .values import IntSort, SeqSort
@@ -63,6 +64,9 @@ class PathCtx:
         self.alternatives = []  # prefixes to explore
         self.solver = z3.Solver()
         self.solver.set("timeout", cfg.branch_timeout_ms)
+        self.lia = z3.Solver()  # abstraction: only the assertions free of sequence terms
+        self.lia.set("timeout", 2000)
+        self._seqfree = {}
         self.pc = []
         self.counter = 0
         self.inputs = []  # (name, kind, payload)
@@ -104,15 +108,54 @@ class PathCtx:
             raise PathInfeasible()
         self.pc.append(term)
         self.solver.add(term)
+        if self.seq_free(term):
+            self.lia.add(term)
         if check:
-            if self._check() == z3.unsat:
+            if self.lia.check() == z3.unsat or self._check() == z3.unsat:
                 raise PathInfeasible()
+
+    def seq_free(self, t):
+        """True if no sub-term of t has a sequence sort (such assertions form the LIA abstraction)."""
+        cache = self._seqfree
+        stack = [t]
+        order = []
+        while stack:
+            e = stack.pop()
+            i = e.get_id()
+            if i in cache:
+                continue
+            order.append(e)
+            for c in e.children():
+                if c.get_id() not in cache:
+                    stack.append(c)
+        for e in reversed(order):
+            i = e.get_id()
+            if i in cache:
+                continue
+            if z3.is_seq(e) or (z3.is_app(e) and e.decl().kind() == z3.Z3_OP_UNINTERPRETED and e.num_args() > 0):
+                cache[i] = False
+            else:
+                cache[i] = all(cache.get(c.get_id(), True) for c in e.children())
+        return cache[t.get_id()]
+
+    def _lia_unsat(self, term):
+        if not self.seq_free(term):
+            return False
+        t0 = time.time()
+        r = self.lia.check(term)
+        self.solver_secs += time.time() - t0
+        self.solver_calls += 1
+        return r == z3.unsat
 
     def _check(self, *assumptions):
         t0 = time.time()
         r = self.solver.check(*assumptions)
-        self.solver_secs += time.time() - t0
+        dt = time.time() - t0
+        self.solver_secs += dt
         self.solver_calls += 1
+        if dt > 0.5 and os.environ.get("PYVC_DEBUG"):
+            import sys
+            print(f"[slow {dt:.1f}s {r}] {[str(a)[:300] for a in assumptions]}", file=sys.stderr)
         return r
 
     def feasible(self, term):
@@ -125,6 +168,8 @@ class PathCtx:
             return True
         if term is False:
             return False
+        if self._lia_unsat(z3.Not(term)):
+            return True
         return self._check(z3.Not(term)) == z3.unsat
 
     def branch(self, term):
@@ -145,13 +190,21 @@ class PathCtx:
             self.forced.append(False)
             self.assume(term if d else z3.Not(term))
             return d
-        can_t = self._check(term) != z3.unsat
+        nterm = z3.Not(term)
+        # cheap abstraction first, then the full solver asked only for infeasibility
+        can_t = not self._lia_unsat(term)
+        can_f = can_t and not self._lia_unsat(nterm)
+        if can_t and can_f:
+            self.solver.set("timeout", min(self.cfg.branch_timeout_ms, 1500))
+            can_f = self._check(nterm) != z3.unsat
+            if can_f:
+                can_t = self._check(term) != z3.unsat
+            self.solver.set("timeout", self.cfg.branch_timeout_ms)
         if not can_t:
             self.decisions.append(False)
             self.forced.append(True)
-            self.assume(z3.Not(term))
+            self.assume(nterm)
             return False
-        can_f = self._check(z3.Not(term)) != z3.unsat
         if not can_f:
             self.decisions.append(True)
             self.forced.append(True)
@@ -166,24 +219,26 @@ class PathCtx:
     def enumerate_values(self, term, limit=24):
         """All values of an Int term feasible under the pc (None if more than `limit`)."""
         vals = []
-        self.solver.push()
+        sol = self.lia if self.seq_free(term) else self.solver
+        sol.push()
         try:
             while True:
-                r = self._check()
+                r = sol.check()
+                self.solver_calls += 1
                 if r == z3.unsat:
                     return vals
                 if r != z3.sat:
                     return None
-                m = self.solver.model()
+                m = sol.model()
                 v = m.eval(term, model_completion=True)
                 if not z3.is_int_value(v):
                     return None
                 vals.append(v.as_long())
                 if len(vals) > limit:
                     return None
-                self.solver.add(term != v)
+                sol.add(term != v)
         finally:
-            self.solver.pop()
+            sol.pop()
 
     # ---- inputs
     def register_input(self, name, kind, payload):
